@@ -6,7 +6,7 @@
    Only statements; proofs live in Proofs/Blind.v, Proofs/Verify.v, Proofs/Ideal.v. *)
 From Coq Require Import List NArith ZArith Bool Lia.
 From Coq.Strings Require Import Byte.
-From EV Require Import Base.Bytes Base.Zn Base.FreeMod Model.Script Model.Ideal Model.Verify Model.Blind
+From EV Require Import Base.Bytes Base.Zn Base.FreeMod Gen.Tables Model.Script Model.Ideal Model.Verify Model.Blind
   Proofs.Ideal Proofs.Verify Proofs.Blind.
 Import ListNotations.
 Open Scope Z_scope.
@@ -30,12 +30,15 @@ Proof.
 Qed.
 
 (* an explicit transaction with positive amounts, balanced per asset (explicit issuances included), the true secrets of the spent
-   outputs (`opens`), at least one marked output, address scripts on the marked outputs: for EVERY randomness, blinding succeeds
-   and the result passes amount verification against the spent outputs *)
+   outputs (`opens`), at least one marked output, address scripts on the marked outputs, and a surjection domain `ss` (the spent
+   outputs and one pseudo-input per explicit issuance / inflation-keys amount) of at most SURJECTIONPROOF_MAX_N_INPUTS entries
+   (the limit Asset::blind enforces, regenerated from src/blind.rs; beyond it see the C04_domain_limit theorems): for EVERY randomness,
+   blinding succeeds and the result passes amount verification against the spent outputs *)
 Theorem C04_blind_verifies : forall (pubk : Z -> Z) (ecdh : Z -> Z -> Z) (p : profile)
   (t : tx) (spent : list txout) (ss : list secrets) (rnd : list Z),
   explicit_positive t -> scripts_addressable t -> opens (t_in t) spent ss -> balanced_per_asset ss t ->
   existsb marked (t_out t) = true -> rnd_ok t rnd ->
+  (N.of_nat (length ss) <= CT_SURJECTIONPROOF_MAX_N_INPUTS)%N ->
   exists t' bl, blind pubk ecdh p rnd ss t = OVal (t', bl) /\ verify_tx_amt_proofs t' spent = OVal tt.
 Proof. exact blind_verifies. Qed.
 
@@ -47,6 +50,7 @@ Theorem C04_unblind : forall (pubk : Z -> Z) (ecdh : Z -> Z -> Z) (p : profile),
   forall (t : tx) (spent : list txout) (ss : list secrets) (rnd : list Z),
   explicit_positive t -> scripts_addressable t -> balanced_per_asset ss t ->
   existsb marked (t_out t) = true -> rnd_ok t rnd ->
+  (N.of_nat (length ss) <= CT_SURJECTIONPROOF_MAX_N_INPUTS)%N ->
   exists t' bl, blind pubk ecdh p rnd ss t = OVal (t', bl) /\ length (t_out t') = length (t_out t) /\
     (forall i o, nth_error (t_out t) i = Some o -> marked o = true ->
        exists a v abf vbf esk o', o_asset o = AExp a /\ o_value o = VExp v /\
@@ -69,6 +73,33 @@ Theorem C04_no_marked_never_panics : forall (pubk : Z -> Z) (ecdh : Z -> Z -> Z)
   existsb marked (t_out t) = false ->
   blind pubk ecdh p rnd ss t = OFail BTooFewBlindingOutputs \/ blind pubk ecdh p rnd ss t = OFail BMustHaveAllExplicitTxOuts.
 Proof. exact blind_none_marked_never_panics. Qed.
+
+(* ------------------------------------------------------------------ the size limit of the surjection domain
+   Asset::blind with more than SURJECTIONPROOF_MAX_N_INPUTS spent entries, every one of which has a surjection target (no
+   TxOutError): the targets are collected, then the call is refused with Upstream(CannotProveSurjection) — whatever the asset,
+   whether or not any entry carries it *)
+Theorem C04_domain_limit_asset_blind : forall (a : N) (abf : Z) (spent : list sinput),
+  Forall (fun s => exists t, surjection_target s = OVal t) spent ->
+  (CT_SURJECTIONPROOF_MAX_N_INPUTS < N.of_nat (length spent))%N ->
+  asset_blind (AExp a) abf spent = OFail BCannotProveSurjection.
+Proof. exact asset_blind_over_limit. Qed.
+(* in particular for known secrets (TxOutSecrets always have a target) *)
+Theorem C04_domain_limit_secrets : forall (a : N) (abf : Z) (ss : list secrets),
+  (CT_SURJECTIONPROOF_MAX_N_INPUTS < N.of_nat (length ss))%N ->
+  asset_blind (AExp a) abf (map sinput_of_secrets ss) = OFail BCannotProveSurjection.
+Proof.
+  intros a abf ss L. apply asset_blind_over_limit; [apply secrets_targets_total|now rewrite map_length].
+Qed.
+(* and Transaction::blind as a whole: with at least one marked output (explicit positive amounts, address scripts, enough
+   randomness — balance and `opens` are not needed) the first marked output is reached, its surjection proof over `ss` is
+   refused, and the call returns that error. With C04_blind_verifies: under the hypotheses of C04, blinding succeeds exactly
+   when the domain is within the limit. *)
+Theorem C04_domain_limit_blind : forall (pubk : Z -> Z) (ecdh : Z -> Z -> Z) (p : profile)
+  (t : tx) (ss : list secrets) (rnd : list Z),
+  explicit_positive t -> scripts_addressable t -> existsb marked (t_out t) = true -> rnd_ok t rnd ->
+  (CT_SURJECTIONPROOF_MAX_N_INPUTS < N.of_nat (length ss))%N ->
+  blind pubk ecdh p rnd ss t = OFail BCannotProveSurjection.
+Proof. intros pubk ecdh p t ss rnd. exact (blind_over_limit pubk ecdh p rnd ss t). Qed.
 
 (* ------------------------------------------------------------------ non-vacuity: a concrete balanced transaction
    2 inputs (explicit asset 1 / amount 100; confidential asset 2 / amount 50 with an explicit issuance of 30 units of asset 9),
@@ -94,10 +125,11 @@ Definition ex_rnd := [21; 22; 23; 24; 25; 26; 27; 28].
 
 Example C04_example_hypotheses :
   explicit_positive ex_tx /\ scripts_addressable ex_tx /\ opens (t_in ex_tx) ex_spent ex_ss /\ balanced_per_asset ex_ss ex_tx
-  /\ existsb marked (t_out ex_tx) = true /\ rnd_ok ex_tx ex_rnd /\ (forall a b, ex_ecdh (ex_pubk a) b = ex_ecdh (ex_pubk b) a).
+  /\ existsb marked (t_out ex_tx) = true /\ rnd_ok ex_tx ex_rnd /\ (forall a b, ex_ecdh (ex_pubk a) b = ex_ecdh (ex_pubk b) a)
+  /\ (N.of_nat (length ex_ss) <= CT_SURJECTIONPROOF_MAX_N_INPUTS)%N.
 Proof.
   assert (QN : forall x, 0 < x < 2 ^ 64 -> 0 < x < qn) by (intros x H; pose proof qn_big; split; [|apply Z.lt_trans with (2 ^ 255)]; try apply H; try assumption; destruct H as [_ H]; eapply Z.lt_trans; [exact H|reflexivity]).
-  split; [|split; [|split; [|split; [|split; [|split]]]]].
+  split; [|split; [|split; [|split; [|split; [|split; [|split]]]]]]; [| | | | | | |vm_compute; discriminate].
   - repeat constructor; eexists _, _; (split; [reflexivity|]); (split; [reflexivity|]); (split; [split; reflexivity|]); intro; discriminate.
   - repeat constructor; intro M; vm_compute in M; try discriminate M; eexists; vm_compute; reflexivity.
   - change ex_ss with (ex_s0 :: iss_secrets ex_in0 ++ ex_s1 :: iss_secrets ex_in1 ++ []).
@@ -131,6 +163,23 @@ Proof.
   - reflexivity.
   - vm_compute. reflexivity.
 Qed.
+(* the boundary of the domain limit on a toy instance: SURJECTIONPROOF_MAX_N_INPUTS (= 256 today) copies of the secrets of one
+   spent output are accepted — the surjection proof points at the first — and one more is refused; likewise the whole
+   Transaction::blind on a one-output transaction (100 units of asset 1 spent per entry, all paid to one marked output) *)
+Definition lim_n : nat := N.to_nat CT_SURJECTIONPROOF_MAX_N_INPUTS.
+Definition lim_tx (n : nat) : tx :=
+  mkTx (repeat ex_in0 n) [mkOut (AExp 1) (VExp (100 * Z.of_nat n)) (NConf (ex_pubk 11)) (p2wpkh x01) None None].
+Example C04_domain_limit_boundary :
+  asset_blind (AExp 1) 21 (repeat (sinput_of_secrets ex_s0) lim_n)
+    = OVal (AConf (asset_gen 1 21), mkSP (asset_gen 1 21) (repeat (sgen ex_s0) lim_n) 0 21 true)
+  /\ asset_blind (AExp 1) 21 (repeat (sinput_of_secrets ex_s0) (S lim_n)) = OFail BCannotProveSurjection
+  /\ (exists t' bl, blind ex_pubk ex_ecdh Debug [21; 22] (repeat ex_s0 lim_n) (lim_tx lim_n) = OVal (t', bl)
+                    /\ verify_tx_amt_proofs t' (repeat (mkOut (AExp 1) (VExp 100) NNull [x51] None None) lim_n) = OVal tt)
+  /\ blind ex_pubk ex_ecdh Debug [21; 22] (repeat ex_s0 (S lim_n)) (lim_tx (S lim_n)) = OFail BCannotProveSurjection.
+Proof.
+  split; [vm_compute; reflexivity|]. split; [vm_compute; reflexivity|]. split; [|vm_compute; reflexivity].
+  eexists _, _. split; [vm_compute; reflexivity|vm_compute; reflexivity].
+Qed.
 
 Check (C04_last_balances : forall (ins outs : list secrets) (a : N) (v abf : Z),
   let last := mkSec a abf v (last_vbf v abf (map value_blind_inputs ins) (map value_blind_inputs outs)) in
@@ -140,12 +189,14 @@ Check (C04_blind_verifies : forall (pubk : Z -> Z) (ecdh : Z -> Z -> Z) (p : pro
   (t : tx) (spent : list txout) (ss : list secrets) (rnd : list Z),
   explicit_positive t -> scripts_addressable t -> opens (t_in t) spent ss -> balanced_per_asset ss t ->
   existsb marked (t_out t) = true -> rnd_ok t rnd ->
+  (N.of_nat (length ss) <= CT_SURJECTIONPROOF_MAX_N_INPUTS)%N ->
   exists t' bl, blind pubk ecdh p rnd ss t = OVal (t', bl) /\ verify_tx_amt_proofs t' spent = OVal tt).
 Check (C04_unblind : forall (pubk : Z -> Z) (ecdh : Z -> Z -> Z) (p : profile),
   (forall a b, ecdh (pubk a) b = ecdh (pubk b) a) ->
   forall (t : tx) (spent : list txout) (ss : list secrets) (rnd : list Z),
   explicit_positive t -> scripts_addressable t -> balanced_per_asset ss t ->
   existsb marked (t_out t) = true -> rnd_ok t rnd ->
+  (N.of_nat (length ss) <= CT_SURJECTIONPROOF_MAX_N_INPUTS)%N ->
   exists t' bl, blind pubk ecdh p rnd ss t = OVal (t', bl) /\ length (t_out t') = length (t_out t) /\
     (forall i o, nth_error (t_out t) i = Some o -> marked o = true ->
        exists a v abf vbf esk o', o_asset o = AExp a /\ o_value o = VExp v /\
@@ -163,4 +214,16 @@ Print Assumptions C04_last_balances.
 Print Assumptions C04_blind_verifies.
 Print Assumptions C04_unblind.
 Print Assumptions C04_no_marked_error.
+Check (C04_domain_limit_asset_blind : forall (a : N) (abf : Z) (spent : list sinput),
+  Forall (fun s => exists t, surjection_target s = OVal t) spent ->
+  (CT_SURJECTIONPROOF_MAX_N_INPUTS < N.of_nat (length spent))%N ->
+  asset_blind (AExp a) abf spent = OFail BCannotProveSurjection).
+Check (C04_domain_limit_blind : forall (pubk : Z -> Z) (ecdh : Z -> Z -> Z) (p : profile)
+  (t : tx) (ss : list secrets) (rnd : list Z),
+  explicit_positive t -> scripts_addressable t -> existsb marked (t_out t) = true -> rnd_ok t rnd ->
+  (CT_SURJECTIONPROOF_MAX_N_INPUTS < N.of_nat (length ss))%N ->
+  blind pubk ecdh p rnd ss t = OFail BCannotProveSurjection).
 Print Assumptions C04_no_marked_never_panics.
+Print Assumptions C04_domain_limit_asset_blind.
+Print Assumptions C04_domain_limit_secrets.
+Print Assumptions C04_domain_limit_blind.
